@@ -263,3 +263,36 @@ Proof.
   - split; apply R_empty.
 Qed.
 
+
+(* ---- soundness of lookups without any collision hypothesis: an inserted pair is never
+   reported "not revoked" (a colliding key can only turn the answer into another entry or an
+   error) *)
+Lemma get_put_mono s k k' v : get s k <> None -> get (put s k' v) k <> None.
+Proof. intros H. rewrite get_put. destruct (N.eqb k k'); [discriminate|exact H]. Qed.
+
+Definition insert_all (b : backend) (s : store) (ins : list (bytes * Z * N)) : store :=
+  fold_left (fun s x => st_insert b s (fst (fst x)) (snd (fst x)) (snd x)) ins s.
+
+Lemma insert_all_mono b ins : forall s k, get s k <> None -> get (insert_all b s ins) k <> None.
+Proof.
+  induction ins as [|x ins IH]; intros s k H; simpl; [exact H|].
+  apply IH. unfold st_insert. apply get_put_mono. exact H.
+Qed.
+
+Lemma inserted_found b ins : forall s i z e,
+  In (i, z, e) ins -> get (insert_all b s ins) (hkey (key_with (ins_sep b) i z)) <> None.
+Proof.
+  induction ins as [|x ins IH]; intros s i z e Hin; [destruct Hin|]. simpl.
+  destruct Hin as [->|Hin].
+  - apply insert_all_mono. cbn [fst snd]. unfold st_insert. rewrite get_put, N.eqb_refl. discriminate.
+  - eapply IH. exact Hin.
+Qed.
+
+Lemma inserted_never_not_revoked b ins s i z e f :
+  In (i, z, e) ins -> st_lookup b (insert_all b s ins) f i z <> Ok None.
+Proof.
+  intros Hin. pose proof (inserted_found b ins s i z e Hin) as H.
+  assert (Es : look_sep b = ins_sep b) by (destruct b; unfold look_sep, ins_sep; rewrite !seps_are_us by lia; reflexivity).
+  unfold st_lookup. rewrite Es.
+  destruct b, f; try discriminate; destruct (get _ _) as [[| | | | |]|]; try discriminate; exfalso; apply H; reflexivity.
+Qed.
